@@ -60,6 +60,11 @@ def fhex(x) -> str:
     return short(f"{a.dtype.str}{a.shape}" + a.tobytes().hex())
 
 
+import os
+
+SURVEY = os.environ.get("VERIF_SURVEY") == "1"
+
+
 class OracleFail(Exception):
     """An oracle of a property evaluated to false."""
 
@@ -119,6 +124,11 @@ class Ctx:
     # --- oracle -----------------------------------------------------------
     def fail(self, oracle: str, sig: dict, detail: str) -> None:
         full = dict(sig, oracle=oracle)
+        if SURVEY:
+            self.c.probes["SURVEY " + canon(full)] += 1
+            if self.c.probes["SURVEY " + canon(full)] == 1:
+                self.c.probes["SURVEYDETAIL " + canon(full) + " :: " + detail[:300]] += 1
+            return
         kid = self.known.match(full)
         if kid is not None:
             self.known_hits[kid] += 1
